@@ -40,8 +40,7 @@ structure ExprOK (m : ExprMap) : Prop where
   notName : ∀ e, nameOf e = none → nameOf (m.e e) = none
   params : ∀ a, paramNames (m.args a) = paramNames a
   handlerTy : ∀ ty, excKind (mapO m.e ty) = excKind ty
-  debugKeep : ∀ e, isDebugTest e = true → isDebugTest (m.e e) = true
-  debugNew : ∀ s e, isDebugTest e = false → isDebugTest (m.e e) = true → evalE s e = none
+  dbgCmp : ∀ e, debugCmp (m.e e) = (debugCmp e).map (fun p => (p.1, m.e p.2))
   core : ∀ e, coreE (m.e e) = coreE e
 
 theorem evalArgs_map (m : ExprMap) (h : ExprOK m) (s : St) : ∀ args : List Expr,
@@ -545,17 +544,27 @@ theorem execFor_le (ft ft' : FTab) (body body' orelse orelse' : List Stmt) (N : 
         | _ => right; rfl
     · simp only [hik, if_false]; exact ho (f + 1) hf s
 
+theorem isDbgName_eq (e : Expr) : isDbgName e = (match nameOf e with | some (x, _) => x == "__debug__" | none => false) := by
+  cases e <;> rfl
+
 /-- the value of an `if` test is refined -/
 theorem condE_map (m : ExprMap) (h : ExprOK m) (s : St) (c : Expr) :
     condE o s c = none ∨ condE o s (m.e c) = condE o s c := by
+  have hn : isDbgName (m.e c) = isDbgName c := by rw [isDbgName_eq (m.e c), isDbgName_eq c, nameOf_map m h c]
   unfold condE
-  by_cases hd : isDebugTest c = true
-  · right; simp [hd, h.debugKeep c hd]
-  · have hd' : isDebugTest c = false := by simpa using hd
-    simp only [hd, Bool.false_eq_true, if_false]
-    by_cases hm : isDebugTest (m.e c) = true
-    · left; exact h.debugNew s c hd' hm
-    · simp only [hm, Bool.false_eq_true, if_false]
+  rw [hn, h.dbgCmp c]
+  by_cases hdn : isDbgName c = true
+  · right; simp only [hdn, if_true]
+  · simp only [hdn, Bool.false_eq_true, if_false]
+    cases hd : debugCmp c with
+    | some p =>
+      obtain ⟨op, e⟩ := p
+      simp only [Option.map_some]
+      cases he : evalE s e with
+      | none => left; rfl
+      | some r => right; rw [h.evalOK s e (by simp [he]), he]
+    | none =>
+      simp only [Option.map_none]
       cases hc : evalE s c with
       | none => left; rfl
       | some r => right; rw [h.evalOK s c (by simp [hc]), hc]
